@@ -248,7 +248,7 @@ def families(ctx: Ctx, with_driver: bool = True):
     wit = json.loads((VERIF / 'corpus' / 'C15' / 'theorem-witnesses.json').read_text())['models']
     for v11 in (False, True):
         yield 'theorem-witnesses', v11, [tup(m['ast']) for m in wit if ('1.1' if v11 else '1.0') in m['versions']]
-        yield 'exh2-core', v11, (rng.sample(core, 2000) if ctx.quick() else core)
+        yield 'exh2-core', v11, (rng.sample(core, 1500) if ctx.quick() else core)
         yield 'flat-choice', v11, (rng.sample(flat, 800) if ctx.quick() else flat)
         wm = c15.wildcard_models(v11)
         yield 'leaf-pairs', v11, (rng.sample(wm, min(len(wm), 600)) if ctx.quick() else wm)
@@ -258,10 +258,10 @@ def families(ctx: Ctx, with_driver: bool = True):
         yield 'exh2-allocc', v11, [c15.small_random(rng, rng.choice([1, 2, 2, 2]), ['a', 'b'], cm.OCC_SMALL)
                                    for _ in range(ctx.pick(1000, 15000))]
         yield 'exh2-any', v11, [c15.small_random(rng, 2, ['a'], cm.OCC_SMALL, any_p=0.5) for _ in range(ctx.pick(800, 15000))]
-        yield 'exh3-sample', v11, [c15.small_random(rng, 3, ['a', 'b'], occ3) for _ in range(ctx.pick(2000, 25000))]
-        yield 'random', v11, [c15.random_model(rng, v11) for _ in range(ctx.pick(2000, 25000))]
+        yield 'exh3-sample', v11, [c15.small_random(rng, 3, ['a', 'b'], occ3) for _ in range(ctx.pick(1500, 25000))]
+        yield 'random', v11, [c15.random_model(rng, v11) for _ in range(ctx.pick(1500, 25000))]
         refs = []
-        while len(refs) < ctx.pick(1000, 10000):
+        while len(refs) < ctx.pick(800, 10000):
             m = c15.with_refs(rng, c15.random_model(rng, v11, max_depth=3), 0.6)
             if c15.has_refs(m):
                 refs.append(m)
